@@ -198,7 +198,8 @@ def normalized(X, mnemonic, args):
     a2 = [dict(a) for a in args]
     prefix = []
     ev = Evaluator(_env(X))
-    call = [Obj('cls'), mnemonic, a2] + ([prefix] if len(params) >= 4 else [])
+    from .consteval import class_obj
+    call = [class_obj(X.arch, 'x86_mn'), mnemonic, a2] + ([prefix] if len(params) >= 4 else [])
     try:
         ev.call_user(fn, call)
     except NotConst as e:
